@@ -120,7 +120,22 @@ impl Validator {
             }
             if self.has_components_of_notation(&key) {
                 if let Some((k, ToplevelDefinition::Type(mut tld))) = self.tlds.remove_entry(&key) {
+                    // X.680 25.7: automatic tagging is decided on the components as written,
+                    // and then applies to the components that COMPONENTS OF brings in as well
+                    let automatically_tagged = tld.module_header.as_ref().is_some_and(|header| {
+                        header.borrow().tagging_environment == TaggingEnvironment::Automatic
+                    }) && match &tld.ty {
+                        ASN1Type::Sequence(s) | ASN1Type::Set(s) => {
+                            !s.components_of.is_empty() && s.members.iter().all(|m| m.tag.is_none())
+                        }
+                        _ => false,
+                    };
                     tld.ty.link_components_of_notation(&self.tlds);
+                    if let (true, ASN1Type::Sequence(s) | ASN1Type::Set(s)) =
+                        (automatically_tagged, &mut tld.ty)
+                    {
+                        s.members.iter_mut().for_each(|m| m.tag = None);
+                    }
                     self.tlds.insert(k, ToplevelDefinition::Type(tld));
                 }
             }
